@@ -21,7 +21,7 @@ for e in plan:
         "origin": "independent sub-agent given only the property text and a scratch worktree (no access to /verif)",
         "confirmed_by_me": e.get("confirmed") or "patch applies to /repo HEAD; compiles; the sub-agent ran the full suite (92 passed) with the patch and the demo (fails with / passes without); I re-ran the check below with the patch applied (git -C /repo apply; ./check ...; git -C /repo checkout -- .)",
         "expected": e["expect"],
-        "check_cmd": ("./check %s --only '%s'" % (e.get("check", e["property"]), e["only"])) if e.get("only") else (("./check %s --e3-only" % e.get("check", e["property"])) if e.get("e3") else None),
+        "check_cmd": ("./check %s --only '%s'" % (e.get("check", e["property"]), e["only"])) if e.get("only") else (("./check %s --e3-only" % e.get("check", e["property"])) if e.get("e3") else (("./check %s" % e.get("check", e["property"])) if e.get("full") else None)),
         "result": r.get("result", "not run (no registered check reaches this code)" if e["expect"] == "miss" else "pending"),
         "detected_by": r.get("detected_by"),
         "why_missed": e.get("why_missed"),
